@@ -11,6 +11,8 @@ Mirrored Go code (`internal/target/queue/queue.go`, `framework/module/msgmetadat
 * `updateMetadataOnDisk`: `metaCopy := *meta; metaCopy.MsgMeta = meta.MsgMeta.DeepCopy();
   metaCopy.MsgMeta.Conn = nil; json.Encode(metaCopy)` - `encodeMeta`; which fields `encoding/json`
   keeps is the parameter `vis` (instantiated with the field table regenerated from the code);
+  all three files are created with `os.Create` (O_TRUNC): what a file of the same name held before
+  is gone (`createFile`, `acceptOver`);
 * `queueDelivery.Commit`: the first attempt is scheduled with the IN-MEMORY metadata and header
   (`queueSlot{Meta, Hdr, Body}`), every later one with `queueSlot{ID}` only;
 * `dispatch`/`openMessage`/`readMessageMeta`: `slot.Meta == nil` => metadata decoded from
@@ -183,6 +185,46 @@ def accept (vis : Vis) (co : Str → Str) (a : Accepted) : St × List Ev :=
   let doc := encodeMeta vis co a.qmeta
   (⟨some (a.qmeta, a.hdr), some ⟨writeHeader a.hdr, a.body, doc⟩, true⟩, [.wrote doc])
 
+/-! ### storing over leftovers
+
+`storeNewMessage` creates `<id>.header` and `<id>.body`, `updateMetadataOnDisk` creates
+`<id>.meta.new`, all three with `os.Create(name)` = `OpenFile(name, O_RDWR|O_CREATE|O_TRUNC, 0666)`
+(the calls are pinned by the regenerated `Generated.MetaEnc.writers`): a file of that name that is
+in the spool directory already - dangling `<id>.header` / `<id>.body` of a server killed between
+the header/body writes and the rename of `<id>.meta` (`readDiskQueue` leaves files without
+`<id>.meta` alone), a leftover `<id>.meta.new`, a message id used a second time - is truncated
+before anything is written. -/
+
+/-- A file after "open + write `new` + close" when a file `old` of that name may exist already.
+`trunc = true` is `os.Create` (what the code does): the file holds exactly what was written.
+`trunc = false` is `OpenFile(O_WRONLY|O_CREATE)` without `O_TRUNC` (what the code does NOT do):
+the tail of a longer old file survives. -/
+def writeOver (trunc : Bool) (old : Option Bytes) (new : Bytes) : Bytes :=
+  if trunc then new else new ++ (old.getD []).drop new.length
+
+/-- `os.Create(name)`, write, close -/
+def createFile (old : Option Bytes) (new : Bytes) : Bytes := writeOver true old new
+
+/-- Files of the new message's own names lying in the spool directory when it is stored
+(`none` = no such file). -/
+structure Leftovers where
+  hdr : Option Bytes
+  body : Option Bytes
+  metaNew : Option Bytes
+
+def noLeftovers : Leftovers := ⟨none, none, none⟩
+
+/-- `updateMetadataOnDisk` over a leftover `<id>.meta.new`: `os.Create` truncates it, the document is
+encoded into it, it is renamed over `<id>.meta` - `<id>.meta` decodes to the document written. -/
+def storeMeta (_leftoverNew : Option Bytes) (doc : QMeta) : QMeta := doc
+
+/-- `queueDelivery.Body` -> `storeNewMessage` into a spool directory that holds `pre`. -/
+def acceptOver (vis : Vis) (co : Str → Str) (pre : Leftovers) (a : Accepted) : St × List Ev :=
+  let doc := encodeMeta vis co a.qmeta
+  (⟨some (a.qmeta, a.hdr),
+    some ⟨createFile pre.hdr (writeHeader a.hdr), createFile pre.body a.body, storeMeta pre.metaNew doc⟩, true⟩,
+   [.wrote doc])
+
 def seenOf (m : QMeta) (h : Header) (body : Bytes) (accepted : Bool) : Seen :=
   { sender := m.sender, to := m.to, utf8 := m.msgMeta.utf8, requireTLS := m.msgMeta.requireTLS,
     tlsRequireOverride := m.msgMeta.tlsRequireOverride, originalRcpts := m.msgMeta.originalRcpts,
@@ -273,6 +315,12 @@ def runFrom (vis : Vis) (co : Str → Str) : St → List Step → St × List Ev
 /-- life of one accepted message under a history of attempts and restarts -/
 def run (vis : Vis) (co : Str → Str) (a : Accepted) (steps : List Step) : St × List Ev :=
   let (s0, e0) := accept vis co a
+  let (s, e) := runFrom vis co s0 steps
+  (s, e0 ++ e)
+
+/-- the same in a spool directory that held `pre` when the message was stored -/
+def runOver (vis : Vis) (co : Str → Str) (pre : Leftovers) (a : Accepted) (steps : List Step) : St × List Ev :=
+  let (s0, e0) := acceptOver vis co pre a
   let (s, e) := runFrom vis co s0 steps
   (s, e0 ++ e)
 
